@@ -51,7 +51,7 @@ Fifth round: C15.4 the zkutils writers decide that no payload was given by ident
 Sixth round: C15.2 the base-n routines work in integers only (no true division, no float); C15.4 the decoder order is judged in the helper that holds json.loads.
 Seventh round: C15.1 every port group of the rule-file regexes accepts all of 1..65535 (decided by matching the folded sub-expression against every value); C15.5 a list-typed admin field is written with one value per element, none dropped or merged.
 Eighth round: C15.5 the reader selects option groups by their prefix alone (the writer numbers them in hexadecimal); C15.1 a template chosen by a conditional expression and wildcard values prepared in locals are read through.
-Ninth round: C15.1 the writer recognises the wildcard address by value (every comparison with firewall.ANY_IP is == / !=, as the rule classes compare; F20); C15.3 a slot the reader can return as None by the shape of the data is tested against None by the writer (F21: ScheduledTraceEvent wrote why=None as the text 'None'). Both repaired in /repo.
+Ninth round: C15.1 the writer recognises the wildcard address by value (every comparison with firewall.ANY_IP is == / !=, as the rule classes compare; F20); C15.3 a slot the reader can return as None by the shape of the data is tested against None by the writer (F21: ScheduledTraceEvent wrote why=None as the text 'None'). Both repaired in /repo. Also C15.2 no codec routine stores into a module-level name or container; C15.5 the loop that encodes an object list ranges over the list given (sorted at most), not over a mapping built from it.
 Does NOT decide round-trip equality and injectivity over the value domains
 (type coercions, port 0 vs wildcard, None vs empty list).
 """
